@@ -6,37 +6,68 @@
   which is what the harness pools draw names and letters from.  Tie: every stream that uses it.
 -/
 import SlacModel.Basic
+import SlacModel.UnicodeTables
 set_option autoImplicit false
 namespace Slac
 namespace Unicode
 
 def inRange (c : Char) (lo hi : Nat) : Bool := lo ≤ c.toNat && c.toNat ≤ hi
 
-/-- simple (one-to-one) lower-casing on the covered blocks -/
-def lowerChar (c : Char) : Char :=
-  let n := c.toNat
-  if inRange c 0x41 0x5A then Char.ofNat (n + 32)
-  else if inRange c 0xC0 0xDE && n != 0xD7 then Char.ofNat (n + 32)
-  else if inRange c 0x391 0x3A9 && n != 0x3A2 then Char.ofNat (n + 32)
-  else if inRange c 0x410 0x42F then Char.ofNat (n + 32)
-  else if inRange c 0x400 0x40F then Char.ofNat (n + 80)
-  else c
+/-- binary search in a sorted array of disjoint inclusive ranges -/
+def inRanges (tbl : Array (Nat × Nat)) (n : Nat) : Bool :=
+  let rec go (lo hi fuel : Nat) : Bool :=
+    match fuel with
+    | 0 => false
+    | fuel + 1 =>
+      if lo ≥ hi then false else
+      let mid := (lo + hi) / 2
+      let (a, b) := tbl[mid]!
+      if n < a then go lo mid fuel else if n > b then go (mid + 1) hi fuel else true
+  go 0 tbl.size 32
 
-def isCased (c : Char) : Bool :=
-  inRange c 0x41 0x5A || inRange c 0x61 0x7A || (inRange c 0xC0 0xFF && c.toNat != 0xD7 && c.toNat != 0xF7)
-  || inRange c 0x391 0x3C9 || inRange c 0x400 0x44F || c.toNat == 0xAA || c.toNat == 0xB5 || c.toNat == 0xBA
+/-- binary search in a sorted array of (key, value) pairs -/
+def lookupMap (tbl : Array (Nat × List Nat)) (n : Nat) : Option (List Nat) :=
+  let rec go (lo hi fuel : Nat) : Option (List Nat) :=
+    match fuel with
+    | 0 => none
+    | fuel + 1 =>
+      if lo ≥ hi then none else
+      let mid := (lo + hi) / 2
+      let (a, v) := tbl[mid]!
+      if n < a then go lo mid fuel else if n > a then go (mid + 1) hi fuel else some v
+  go 0 tbl.size 32
 
-/-- `str::to_lowercase`: per-character mapping, except Σ (U+03A3) which becomes ς at the end of a word
-    (preceded by a cased letter and not followed by one). -/
-def lowerStrAux : Bool → Str → Str
+/-- `char::is_alphabetic` -/
+def isAlphabetic (c : Char) : Bool := inRanges UnicodeTables.alphabetic c.toNat
+/-- `char::is_numeric` -/
+def isNumeric (c : Char) : Bool := inRanges UnicodeTables.numeric c.toNat
+def isCaseIgnorable (c : Char) : Bool := inRanges UnicodeTables.caseIgnorable c.toNat
+def isCasedNotIgnorable (c : Char) : Bool := inRanges UnicodeTables.casedNotIgnorable c.toNat
+
+/-- `char::to_lowercase` -/
+def lowerChar (c : Char) : Str :=
+  match lookupMap UnicodeTables.lowerMap c.toNat with | some l => l.map Char.ofNat | none => [c]
+/-- `char::to_uppercase` -/
+def upperChar (c : Char) : Str :=
+  match lookupMap UnicodeTables.upperMap c.toNat with | some l => l.map Char.ofNat | none => [c]
+
+/-- `case_ignorable_then_cased`: skip Case_Ignorable characters, then test Cased -/
+def ignorableThenCased : Str → Bool
+  | [] => false
+  | c :: cs => if isCaseIgnorable c then ignorableThenCased cs else isCasedNotIgnorable c
+
+/-- `str::to_lowercase`: per-character mapping, except Σ (U+03A3) which becomes ς when word-final
+    (Final_Sigma: preceded by a cased letter and not followed by one, skipping case-ignorable characters).
+    `before` holds the characters already seen, most recent first. -/
+def lowerStrAux : Str → Str → Str
   | _, [] => []
-  | prevCased, c :: cs =>
+  | before, c :: cs =>
     if c.toNat == 0x3A3 then
-      let followed := match cs with | d :: _ => isCased d | [] => false
-      (if prevCased && !followed then Char.ofNat 0x3C2 else Char.ofNat 0x3C3) :: lowerStrAux true cs
-    else if c.toNat == 0x130 then 'i' :: Char.ofNat 0x307 :: lowerStrAux true cs
-    else lowerChar c :: lowerStrAux (isCased c || (prevCased && (c == '\'' || c.toNat == 0x301 || c.toNat == 0x307))) cs
-def lowerStr (s : Str) : Str := lowerStrAux false s
+      (if ignorableThenCased before && !ignorableThenCased cs then Char.ofNat 0x3C2 else Char.ofNat 0x3C3) :: lowerStrAux (c :: before) cs
+    else lowerChar c ++ lowerStrAux (c :: before) cs
+def lowerStr (s : Str) : Str := lowerStrAux [] s
+/-- `str::to_uppercase` -/
+def upperStr (s : Str) : Str := s.flatMap upperChar
 
 /-- ASCII-only lower-casing (used for the case-variant theorems) -/
 def asciiLowerChar (c : Char) : Char := if inRange c 0x41 0x5A then Char.ofNat (c.toNat + 32) else c
